@@ -83,6 +83,39 @@ FIXED_WITNESSES = [
 ]
 
 
+def blank_family() -> list[list[tuple]]:
+    """Every block tag as a wrapper around every multi-branch construct whose branches are
+    blank or printing in every combination, with conditions that select each branch: the
+    static blank flag of a construct must account for ALL its branches (complete, not sampled)."""
+    T, F = ("lit", True), ("lit", False)
+    empty, two = ("range", ("lit", 1), ("lit", 0)), ("range", ("lit", 1), ("lit", 2))
+    blanks = [[("content", " ")], [("assign", "t", ("lit", 1))]]
+    prints = [[("content", "x")]]
+
+    def wrappers(inner: tuple) -> list[tuple]:
+        body = [("content", " "), inner, ("content", "\n")]
+        return [("if", T, body, [], None), ("unless", F, body, [], None), ("case", ("lit", 1), [([("lit", 1)], body)], None),
+                ("with", [("w", ("lit", 1))], body), ("for", "j", ("range", ("lit", 1), ("lit", 1)), None, None, False, body, None),
+                ("if", F, [("content", " ")], [], body), ("if", F, [("content", " ")], [(T, body)], None), ("liquid", [inner])]
+
+    progs: list[list[tuple]] = []
+    for b1 in blanks + prints:
+        for b2 in blanks + prints:
+            inners = [
+                ("for", "i", empty, None, None, False, b1, b2), ("for", "i", two, None, None, False, b1, b2),
+                ("if", T, b1, [], b2), ("if", F, b1, [], b2), ("unless", T, b1, [], b2), ("unless", F, b1, [], b2),
+                ("if", F, b1, [(T, b2)], b1), ("if", F, b1, [(F, b1)], b2),
+                ("case", ("lit", 1), [([("lit", 1)], b1)], b2), ("case", ("lit", 2), [([("lit", 1)], b1)], b2),
+                ("case", ("lit", 2), [([("lit", 1)], b1), ([("lit", 2), ("lit", 3)], b2)], b1),
+            ]
+            for inner in inners:
+                for w in wrappers(inner):
+                    if w[0] == "liquid" and any(n[0] == "content" for blk in (b1, b2) for n in blk):
+                        w = ("liquid", clf.to_lines_ast([inner]))
+                    progs.append([("content", "["), w, ("content", "]")])
+    return progs
+
+
 def features(n: Any, acc: set[str]) -> None:
     if isinstance(n, tuple) and n and isinstance(n[0], str):
         acc.add(n[0] if n[0] != "filter" else "filter:" + n[2])
@@ -112,15 +145,21 @@ def main(chk: C.Check, build: C.Build) -> None:
     cfgs: dict[tuple, int] = {}
     nmarked = 0
     pyexc: list[dict[str, Any]] = []
-    for pi in range(nprog):
-        prog = clf.canon(clf.gen_program(r, depth=3 if not thorough else r.choice([3, 4])))
-        suppress = r.random() < 0.7
-        trim = r.choice(["+", "+", "-", "~"])
-        shorthand = r.random() < 0.3
+    family = blank_family()
+    for pi in range(nprog + 2 * len(family)):
+        if pi >= nprog:
+            # the complete blank-flag family, with suppression on and off
+            prog = clf.canon({"main": family[(pi - nprog) // 2], "loader": {}})
+            suppress, trim, shorthand = (pi - nprog) % 2 == 0, "+", False
+        else:
+            prog = clf.canon(clf.gen_program(r, depth=3 if not thorough else r.choice([3, 4])))
+            suppress = r.random() < 0.7
+            trim = r.choice(["+", "+", "-", "~"])
+            shorthand = r.random() < 0.3
         layout_r = C.rng("c01-layout", pi)
         # explicit whitespace-control markers (-, ~, +) at every markup position of
         # 60% of the programs; the same markers in both layouts
-        marked = r.random() < 0.6
+        marked = r.random() < 0.6 and pi < nprog
         clf.SHORTHAND = shorthand
         try:
             src, sd = clf.p_source(prog["main"], layout_r, C.rng("c01-markers", pi) if marked else None)
@@ -136,8 +175,8 @@ def main(chk: C.Check, build: C.Build) -> None:
         cfgs[(trim, suppress, shorthand)] = cfgs.get((trim, suppress, shorthand), 0) + 1
         fs: set[str] = set()
         features(prog, fs)
-        for _ in range(2):
-            data = clf.gen_data(r)
+        for _ in range(2 if pi < nprog else 1):
+            data = clf.gen_data(r) if pi < nprog else {}
             o = run_impl(src, loader_src, data, suppress, trim=trim, shorthand=shorthand)
             evaluations += 1
             dist["text" if o[0] == "T" else "error" if o[0] == "E" else "pyexc"] += 1
